@@ -25,11 +25,13 @@ def plan(tier):
             {"fam": "bitenc", "trace": "PackedTrace"},
             {"fam": "smallints", "trace": "PackedTrace"},
             {"fam": "fenwick", "trace": "PackedTrace"},
+            {"fam": "bitencbig", "trace": "PackedTrace"},
         ],
         "required_obligations": ["tlc_behaviours_replayed", "push_values_crosses_block_end",
                                  "push_values_inside_block", "push_values_overwide_value", "width_with_padding",
                                  "from_elem_max_refused", "value_equals_small_max", "value_above_small_max",
-                                 "value_below_small_min", "set", "len_power_of_two"],
+                                 "value_below_small_min", "set", "len_power_of_two",
+                                 "bitenc_more_than_65536_symbols", "fenwick_len_beyond_65536"],
         "rule": "BitEnc: every complete history of <=2 (quick) / <=3 (thorough) operations that TLC generates from "
                 "the BitEnc machine at the real block size 32 for widths 1..8 (n and i chosen at the block seams, "
                 "values 1 and over-wide 255) replayed into the real BitEnc, plus seeded random histories of <=12 "
